@@ -132,6 +132,11 @@ class DateTime(datetime.datetime, Date):
         if tz is not None:
             tz = pendulum._safe_timezone(tz, dt=dt)
 
+        if dt.tzinfo is not None:
+            # Carry over the instant, not the wall clock fields: a foreign
+            # tzinfo (e.g. pytz) may resolve a repeated time without using fold.
+            dt = dt.astimezone(tz)
+
         return cls.create(
             dt.year,
             dt.month,
